@@ -1,7 +1,88 @@
 import Driver.Util
-/- Sub-protocol `C19`: not built yet. -/
+import ZxVerif.Spec.Mixer
+/-
+Sub-protocol `C19`: the mixer / frame clock model and the C19 spec. Numbers hexadecimal.
+  new <spf> <L> <useBeeper 0|1>      -> ok
+  w <clk> <pos>                      -> <frames> <fc> <len> <lastPos> <hyp 0|1>
+        wait_internal(clk); <pos> is the sample index the harness computed with the f64 formula of the
+        code for the new frame clock; hyp = 1 iff it has the properties the theorems assume, checked
+        against the rational index q = ⌊spf·t/L⌋: pos ≤ spf, pos = spf from t ≥ L on, q-1 ≤ pos ≤ q
+  o <data>                           -> ok            (level change of the ULA write)
+  p <n>                              -> <samples | -> <len>     n calls of next_audio_sample
+  d                                  -> <samples | -> 0         drain everything
+  sf <L> <spf> <init code> <writes t:code,… | -> <batch | ->   -> ok | bad <k>    (Spec.frameOk)
+  sq <spf> <len>                     -> 1 | 0                                    (Spec.queueOk)
+  sv <vol>                           -> bound in units of 1/2000                 (Spec.valueBound)
+samples: run-length `code:count` joined by `,`; code = 2·ear + mic.
+-/
 namespace Driver.C19
+open ZxVerif.Mixer
 
-def proto : Driver.Proto := { σ := Unit, init := (), handle := fun s _ => (s, "unimplemented") }
+structure St where
+  m : Machine := { mixer := { spf := 0 }, L := 1 }
+
+def natHex (n : Nat) : String :=
+  if n = 0 then "0" else
+  let rec go (fuel n : Nat) (acc : List Char) : List Char :=
+    match fuel with
+    | 0 => acc
+    | fuel + 1 => if n = 0 then acc else go fuel (n / 16) (hexChar (n % 16) :: acc)
+  String.ofList (go 64 n [])
+
+def rle (xs : List Level) : String :=
+  let rec go : List Level → Option (Nat × Nat) → List String → List String
+    | [], none, acc => acc.reverse
+    | [], some (c, n), acc => (s!"{c}:{natHex n}" :: acc).reverse
+    | x :: xs, none, acc => go xs (some (x.code, 1)) acc
+    | x :: xs, some (c, n), acc =>
+        if x.code = c then go xs (some (c, n + 1)) acc else go xs (some (x.code, 1)) (s!"{c}:{natHex n}" :: acc)
+  let toks := go xs none []
+  if toks.isEmpty then "-" else ",".intercalate toks
+
+def levelOf (code : Nat) : Level := { ear := code / 2 % 2 = 1, mic := code % 2 = 1 }
+
+def unrle (s : String) : List Level :=
+  if s = "-" then [] else
+  (s.splitOn ",").flatMap fun t =>
+    match t.splitOn ":" with
+    | [c, n] => List.replicate (hexNatD n) (levelOf (hexNatD c))
+    | _ => []
+
+def writesOf (s : String) : List (Nat × Level) :=
+  if s = "-" then [] else
+  (s.splitOn ",").filterMap fun t =>
+    match t.splitOn ":" with
+    | [a, c] => some (hexNatD a, levelOf (hexNatD c))
+    | _ => none
+
+def handle (s : St) : List String → St × String
+  | ["new", spf, l, ub] =>
+    ({ m := { mixer := { spf := hexNatD spf, useBeeper := boolD ub }, L := hexNatD l } }, "ok")
+  | ["w", clk, pos] =>
+    let clk := hexNatD clk
+    let pos := hexNatD pos
+    let t := s.m.fc + clk
+    let spf := s.m.mixer.spf
+    let q := posQ spf s.m.L t
+    let hyp := decide (pos ≤ spf) && (decide (t < s.m.L) || decide (pos = spf)) &&
+      decide (pos ≤ q) && decide (q ≤ pos + 1)
+    let m := s.m.wait clk pos
+    ({ m := m }, s!"{natHex m.frames} {natHex m.fc} {natHex m.mixer.buf.length} {natHex m.mixer.lastPos} {bit hyp}")
+  | ["o", d] => ({ m := s.m.out (bv8 d) }, "ok")
+  | ["p", n] =>
+    let r := s.m.mixer.popN (hexNatD n)
+    ({ m := { s.m with mixer := r.1 } }, s!"{rle r.2} {natHex r.1.buf.length}")
+  | ["d"] =>
+    let r := s.m.mixer.popN s.m.mixer.buf.length
+    ({ m := { s.m with mixer := r.1 } }, s!"{rle r.2} {natHex r.1.buf.length}")
+  | ["sf", l, spf, init, ws, batch] =>
+    match Spec.frameOk (hexNatD l) (hexNatD spf) (levelOf (hexNatD init)) (writesOf ws) (unrle batch) with
+    | none => (s, "ok")
+    | some k => (s, s!"bad {natHex k}")
+  | ["sq", spf, len] => (s, bit (Spec.queueOk (hexNatD spf) (hexNatD len)))
+  | ["sv", vol] => (s, natHex (Spec.valueBound (hexNatD vol)))
+  | _ => (s, "bad-op")
+
+def proto : Driver.Proto := { σ := St, init := {}, handle := handle }
 
 end Driver.C19
